@@ -204,17 +204,29 @@ fn gauss(rng: &mut ChaCha20Rng, sigma: f64) -> i64 {
 }
 
 pub fn gen_input(n: usize, rng: &mut ChaCha20Rng) -> Option<(V4, String)> {
-    let widths = [1.17 * (12289.0 / (2.0 * n as f64)).sqrt(), 0.6, 1.0, 2.5, 6.0];
+    let widths = [1.17 * (12289.0 / (2.0 * n as f64)).sqrt(), 0.6, 1.0, 2.5, 6.0, 20.0, 60.0];
     let wi = rng.gen_range(0..widths.len());
-    let sigma = widths[wi].min(40.0).max(0.6);
+    let sigma = widths[wi].min(80.0).max(0.6);
     let f: Vec<i64> = (0..n).map(|_| gauss(rng, sigma)).collect();
     let g: Vec<i64> = (0..n).map(|_| gauss(rng, sigma)).collect();
     if f.iter().chain(g.iter()).all(|&x| x == 0) {
         return None;
     }
-    let f0: Vec<i64> = (0..n).map(|_| rng.gen_range(-127..=127)).collect();
-    let g0: Vec<i64> = (0..n).map(|_| rng.gen_range(-127..=127)).collect();
-    let shape = rng.gen_range(0..4);
+    let shape = rng.gen_range(0..6);
+    // shapes 4 and 5: (F,G) SHORTER than (f,g) but not necessarily reduced
+    let small = if shape == 4 { rng.gen_range(1..=6) } else { 127 };
+    let f0: Vec<i64> = (0..n).map(|_| rng.gen_range(-small..=small)).collect();
+    let g0: Vec<i64> = (0..n).map(|_| rng.gen_range(-small..=small)).collect();
+    if shape == 5 {
+        // a fraction of (f,g) itself: trunc(c (f,g)) with 0.4 <= c < 1
+        let c: f64 = 0.4 + 0.6 * rng.gen::<f64>();
+        let cf: Vec<i64> = f.iter().map(|&x| (x as f64 * c) as i64).collect();
+        let cg: Vec<i64> = g.iter().map(|&x| (x as f64 * c) as i64).collect();
+        if cf.iter().chain(cg.iter()).all(|&x| x == 0) {
+            return None;
+        }
+        return Some(((f, g, cf, cg), format!("fraction-of-fg-w{}", wi)));
+    }
     let mag_bits = rng.gen_range(2..=20);
     let mag = 1i64 << mag_bits;
     let mut k: Vec<i64> = match shape {
@@ -231,9 +243,9 @@ pub fn gen_input(n: usize, rng: &mut ChaCha20Rng) -> Option<(V4, String)> {
             v[rng.gen_range(0..n)] = mag;
             v
         }
-        _ => vec![0i64; n], // already reduced input
+        _ => vec![0i64; n], // k = 0: (F,G) = (F0,G0)
     };
-    let sname = ["dense", "sparse", "spiky", "zero-k"][shape];
+    let sname = ["dense", "sparse", "spiky", "zero-k", "zero-k-tiny-FG", "fraction"][shape];
     // scale k down until (F,G) fits below 2^24
     for _ in 0..24 {
         let kf = spec::negamul_z(&k, &f);
